@@ -262,6 +262,22 @@ Fixpoint choices_ok (V width : nat) fus lm (eps : Qc) (len t : nat)
            (sstep V width fus lm (Nat.leb len t) nonext blank (hd [] choices) bm)
   end.
 
+(* "nothing had to be pruned": at every frame the element really processes, every candidate
+   the topk answer left out was an invalid (-inf) one *)
+Definition all_kept (V : nat) (fr : frame) (bm : beam) (choice : list nat) : bool :=
+  forallb (fun u => existsb (Nat.eqb u) choice || is_neginf (cand V fr bm u))
+          (seq 0 (ncand V bm)).
+
+Fixpoint nothing_pruned (V width : nat) fus lm (len t : nat)
+  (frames : list (list Qc * Qc)) (choices : list (list nat)) (bm : beam) : bool :=
+  match frames with
+  | [] => true
+  | (nonext, blank) :: frames' =>
+      (Nat.leb len t || all_kept V (mk_frame fus lm nonext blank bm) bm (hd [] choices))
+      && nothing_pruned V width fus lm len (S t) frames' (tl choices)
+           (sstep V width fus lm (Nat.leb len t) nonext blank (hd [] choices) bm)
+  end.
+
 (* the model's own deterministic topk (stable: ties to the smaller index), used when the
    harness could not observe the implementation's choices, in Examples, and to show that
    an admissible choice always exists *)
